@@ -20,7 +20,7 @@ DECL_INPUT(share_in);
 	INPUT(der_in, I); ASSUME(I.inlen <= (size_t)INT_MAX); \
 	MKBUF(buf, I.buf, I.inlen); const uint8_t *in = buf; size_t inlen = I.inlen
 
-//@job name=sm2_key_set_private_key props=C12 enforce=sm2_key_set_private_key replace=sm2_z256_point_mul_generator
+//@job name=sm2_key_set_private_key props=C12,C20 enforce=sm2_key_set_private_key replace=sm2_z256_point_mul_generator
 void h_sm2_key_set_private_key(void)
 {
 	INPUT(z256m_in, D); SM2_KEY key;
